@@ -233,7 +233,7 @@ def function_yaml(name, k, d, t, g, explicit):
         args = list(base_args)
         if i == k - 1:
             for j in range(d):
-                args.append("int d%d = %d" % (j, j + 1))
+                args.append("int d%d = %d" % (j, j))          # (the first default is 0: a falsy default is still a default)
         if t and i == 0:
             decl = "template<typename T> void %s(T tt, %s)" % (name, ", ".join(args))
             node["cxx_template"] = [{"instantiation": "<int>"}, {"instantiation": "<double>"}]
@@ -274,9 +274,9 @@ def predicted_names(scope, atoms, idx, spec):
     if explicit not in (True, "blank") or g == 3:
         return None
     f = atoms["f%d" % idx]
-    cscope = {"lib": "", "ns": atoms["ns"] + "_", "cls": atoms["ns"] + "_" + atoms["cls"] + "_",
-              "deep": atoms["ns"] + "_inner_" + atoms["cls"] + "_"}[scope]
-    fscope = atoms["cls"] + "_" if scope in ("cls", "deep") else ""
+    cscope = {"lib": "", "conly": "", "ns": atoms["ns"] + "_", "cls": atoms["ns"] + "_" + atoms["cls"] + "_",
+              "deep": atoms["ns"] + "_inner_" + atoms["cls"] + "_", "tcls": atoms["ns"] + "_" + atoms["cls"] + "_int_"}[scope]
+    fscope = atoms["cls"] + "_" if scope in ("cls", "deep") else (atoms["cls"] + "_int_" if scope == "tcls" else "")
     cn, fn = set(), set()
     for i in range(k):
         if i == k - 1 and d:
@@ -319,12 +319,26 @@ def build_library(atoms, scope, funcs):
     lib = {"library": "lib", "cxx_header": "lib.hpp", "options": {"wrap_python": True, "wrap_lua": True}}
     if scope == "lib":
         lib["declarations"] = decls
+    elif scope == "conly":
+        # the C API alone: Fortran (and with it Python / Lua) switched off
+        lib["declarations"] = decls
+        lib["options"].update({"wrap_fortran": False, "wrap_python": False, "wrap_lua": False})
     elif scope == "ns":
         lib["declarations"] = [{"decl": "namespace %s" % atoms["ns"], "declarations": decls}]
     elif scope == "deep":
         # methods of a class two namespaces down
         lib["declarations"] = [{"decl": "namespace %s" % atoms["ns"], "declarations": [
             {"decl": "namespace inner", "declarations": [{"decl": "class %s" % atoms["cls"], "declarations": decls}]}]}]
+    elif scope == "tcls":
+        # methods of an instantiated class template; the first parameter of every overload has the template parameter's type
+        import copy as _copy
+        tdecls = _copy.deepcopy(decls)
+        for nd in tdecls:
+            nd["decl"] = re.sub(r"\b(?:int|double|long) a0\b", "T a0", nd["decl"])
+        lib["declarations"] = [{"decl": "namespace %s" % atoms["ns"], "declarations": [
+            {"decl": "template<typename T> class %s" % atoms["cls"], "cxx_template": [{"instantiation": "<int>"}], "declarations": tdecls}]}]
+        lib["options"]["wrap_python"] = False          # (this scope is about the C and Fortran names)
+        lib["options"]["wrap_lua"] = False
     elif scope == "flat":
         # the same names at library level and in a namespace that is flattened into the library's Fortran module
         import copy as _copy
@@ -447,6 +461,8 @@ def check_structure(scope, funcs):
             if set(mine_c) != pred[0]:
                 return "C++ name %s: the user-given suffixes predict the C names %r, emitted %r" % (
                     atoms["f%d" % idx], sorted(pred[0]), sorted(mine_c)), None
+        if scope == "conly":
+            continue
         mine_f = [n for n in names["f_spec"] if fname in n]
         if pred is not None and not (t and d and k == 1):
             direct = {n for n in names["f_iface"] if fname in n and not n.startswith("c_") and "bufferify" not in n}
@@ -469,7 +485,7 @@ def check_structure(scope, funcs):
             for p in procs:
                 if fname not in p:
                     return "generic interface %s lists %s, a specific of another name" % (gname, p), None
-            if want_f > 1 and scope not in ("cls", "deep", "flat") and gname == fname and len(procs) != want_f:
+            if want_f > 1 and scope not in ("cls", "deep", "tcls", "flat") and gname == fname and len(procs) != want_f:
                 return "generic interface %s lists %d specifics, the C++ name has %d callable signatures" % (gname, len(procs), want_f), None
             if scope == "flat" and want_f1 > 1 and len(procs) != want_f1:
                 return "generic interface %s lists %d specifics, its C++ name has %d callable signatures" % (gname, len(procs), want_f1), None
@@ -580,10 +596,16 @@ def structures(tier):
     for s in single:
         if s[4] is False and not (s[2] and s[1] and s[0] == 1):
             out.append(("flat", [s]))
-    for scope in ("lib", "ns", "cls", "deep"):
+    for scope in ("lib", "ns", "cls", "deep", "tcls", "conly"):
         for s in single:
-            if scope in ("cls", "deep") and s[3]:
+            if scope in ("cls", "deep", "tcls", "conly") and s[3]:
                 continue
+            if scope == "conly" and not s[1]:
+                continue        # (the C-only scope is about the wrap flags of default-argument copies)
+            if scope == "tcls" and s[2]:
+                continue        # (no member templates inside the class template)
+            if scope == "tcls" and s[1]:
+                continue        # known finding: class-template method with trailing default arguments
             if scope == "deep" and not (s[0] > 1 or s[1]):
                 continue        # (the deep scope is about overload / default-argument processing of nested classes)
             if s[2] and s[1] and s[0] == 1:
@@ -610,7 +632,7 @@ def run_structs(chunk):
         rec = {"scope": scope, "funcs": funcs, "what": v, "queries": 0, "unknown": 0}
         if v is None:
             for key in ("c_templates", "f_templates"):
-                cex, nq, unk = injective(info[key], reserved_for=("f0", "f1") if scope in ("cls", "deep") else ())
+                cex, nq, unk = injective(info[key], reserved_for=("f0", "f1") if scope in ("cls", "deep", "tcls") else ())
                 rec["queries"] += nq
                 rec["unknown"] += unk
                 if cex:
@@ -696,6 +718,10 @@ def main():
     for k in known:
         if k["key"] == "template-with-defaults":
             v0, _ = check_structure("lib", [(1, 1, 2, 0, False)])
+            if v0:
+                rep.known_finding("%s (%s)" % (k["what_fails"], v0[:120]))
+        elif k["key"] == "class-template-method-defaults":
+            v0, _ = check_structure("tcls", [(1, 1, 0, 0, False)])
             if v0:
                 rep.known_finding("%s (%s)" % (k["what_fails"], v0[:120]))
         elif k["key"] == "fortran-c-prefix-name":
